@@ -98,6 +98,10 @@ def _classify(out, err, dt, timeout):
 def solve(text, timeout=30, tier='quick', order=None, pre_text=None):
     """quick tier: most obligations are discharged by z3 5.1 in milliseconds, so it is tried alone first with a short
     budget; anything else goes to the full racing portfolio with the full budget."""
+    if tier == 'cover':
+        # vacuity guard: one solver, short budget; only 'unsat' (hypotheses contradictory) matters
+        v, dt, out, err = run_one('z3-5.1', text, timeout)
+        return Result(v, 'z3-5.1', dt, {'z3-5.1': (v, dt, out)})
     if pre_text is not None:
         # stage 0: recursive specification functions left uninterpreted (weaker hypotheses: a proof found here is valid and
         # is not disturbed by the solver's unfolding heuristics, which made some proofs unstable)
